@@ -17,7 +17,10 @@ RULE = ('EconSpecs: 1-3 currency zones, each a single country or a federated zon
         'Capitalists beside a FixedMarginBusiness with margin, single- or multi-output firms; optional money/deposit '
         'markets with constant or rate-dependent portfolio weights; gifts (constant, share of lagged wealth, share of '
         'after-tax income; income flags varied) and imports within and across zones through an ExternalSector created '
-        'before, between or after the countries; time-varying non-unit exchange rates; optional initial stocks. The final '
+        'before, between or after the countries; time-varying non-unit exchange rates; optional initial stocks; currency codes that may contain one another; '
+        'user-registered income exclusions; the external sector created before, between, after the countries or last of all; '
+        'read-only queries (sector listings / lookups, dumps, LogInfo, an unrelated Model() being started) issued at generated '
+        'points of the construction. The final '
         'text of Model.main() is solved exactly over Fractions for 3-5 periods. Non-trivial: at least two sectors with '
         'non-zero change in F in a checked period and one of: cross-zone link, capitalists with dividends, non-zero deposit '
         'interest, market with several suppliers, federated zone. Distinct: sha1 of the spec.')
